@@ -142,7 +142,7 @@ theorem execOp_fca {s : Sys} {prevI prevT : Nat} {es : List Entry} {sch : Sched}
             simp only [opEntries]; omega)
     | replace d tail =>
       simp only [FcaSpec] at hspec
-      obtain ⟨hlen, hlast, hpos, hd1, hd2, hne, hc, hfca⟩ := hspec
+      obtain ⟨_, hlen, hlast, hpos, hd1, hd2, hne, hc, hfca⟩ := hspec
       have hrep := hi1.replaceMem hd1 hd2 hne hc hpos (by rw [hb1]; omega)
       obtain ⟨s2, he2, hb2, hq2⟩ := Sys.enqueue_quiet { s1 with buf := s1.buf.replaceMem d tail } (.replace d tail)
         ⟨hq1.1, hq1.2⟩ (by simp)
